@@ -87,10 +87,13 @@ pub fn scenarios(tier: &str) -> Vec<Scenario> {
     let mut committed = base.clone();
     committed.extend(block(vec![s_set(0, 0, 1)]));
     committed.push(Step::Commit);
+    // a slot cleared by a real transaction holds an explicit zero row, which simulated SLOADs then read
+    let mut cleared = committed.clone();
+    cleared.extend(block(vec![s_set(0, 0, 0)]));
     vec![Scenario {
         name: "reads-interleaved".into(),
         opts,
-        starts: vec![("S deployed in block 1".into(), base), ("one block committed".into(), committed)],
+        starts: vec![("S deployed in block 1".into(), base), ("one block committed".into(), committed), ("slot 0 set, committed, then cleared".into(), cleared)],
         alphabet: alpha,
         bounds: Bounds { depth: if thorough { 5 } else { 4 }, dev: vec![if thorough { 2 } else { 1 }], dev_total: 2 },
         weight: 1.0,
